@@ -67,6 +67,7 @@ var c20Transforms = []struct {
 	{"Scale(2,2)*Translate(-32,-32)", []generate.Aff3{generate.Scale(2, 2), generate.Translate(-32, -32)}},
 	{"Scale(1.5,-0.5)", []generate.Aff3{generate.Scale(1.5, -0.5)}},
 	{"Translate(3,4)*Scale(0.5,4)*Translate(-1,1)", []generate.Aff3{generate.Translate(3, 4), generate.Scale(0.5, 4), generate.Translate(-1, 1)}},
+	{"Scale(1,-1)*Translate(0,-8)", []generate.Aff3{generate.Scale(1, -1), generate.Translate(0, -8)}}, // a flip: x scale exactly 1
 }
 
 var c20Conv = []struct {
@@ -325,6 +326,9 @@ func c20MkGroups(verb byte, ngroups int, ctr *int) [][]c20Num {
 			}
 			if (verb == 'A' || verb == 'a') && i < 2 {
 				f = c20Tok{strconv.Itoa(2 + *ctr%5), float64(2 + *ctr%5)}
+				if i == 1 && g%2 == 1 {
+					f = c20Tok{grp[0].S, grp[0].V} // every other arc is circular: equal radii, rotation as spelled
+				}
 			}
 			sep := " "
 			if i == 0 && g == 0 {
@@ -375,7 +379,7 @@ func init() {
 	mc.Register(&mc.Check{
 		ID:    "C20",
 		Level: "exploration",
-		Rule: "engine B over the two dialect grammars of the statement. Structure: every command sequence M|m (1 or 2 operand groups) + <=3 (thorough <=4) further commands over the dialect's verbs with 1 or 2 operand groups (implicit repetition), sub-path joins zM/zm, terminator z (generator) / optional z (converter), x 5 transforms / 4 (size,offset,outSize) triples x ADJ {0,3}. " +
+		Rule: "engine B over the two dialect grammars of the statement. Structure: every command sequence M|m (1 or 2 operand groups) + <=3 (thorough <=4) further commands over the dialect's verbs with 1 or 2 operand groups (implicit repetition), sub-path joins zM/zm, terminator z (generator) / optional z (converter), x 6 transforms / 4 (size,offset,outSize) triples x ADJ {0,3}. " +
 			"Lexis: for every verb, every number form {1,-2,+3,.5,-.25,10.5,0,007,+12.5,-0.75,+.5, three forms with 20 or more digits} in every operand position x every separator {space, comma, two spaces, comma with spaces around it, nothing where the next sign or dot delimits}. Long: every verb once with 300 operand groups. Concat/MulAff3: all ordered triples of 8 matrices against float64 composition. Converter level: SVG files with <=3 paths x opacity attributes {absent,1,.5,.25} in both attribute spellings x 0..2 circles x {viewBox 0 0 48 48 at size 48, viewBox 4 -2 24 24 at size 24} through ParseFile. " +
 			"Expected calls are built from the structured description (not by parsing): first move => StartPath(adj), later moves => close-and-move, one ClosePathEndPath; absolute operands full transform, relative scale only, H/V matching axis, radii scale, flags unchanged, rotation/360; within 3 float32 ulp at the magnitude of the largest term (converter 4). " +
 			"distinct = hash of the emitted call kinds; non-trivial = string with an implicit repetition, a sub-path join or a non-space separator",
